@@ -44,16 +44,26 @@ package simpledb
 
 // ---------------------------------------------------------------------------------------------------
 // DB write path (C17, C02, C13, C01).
-// dbRot(db) counts calls of rotateWalAndFlushMemstore.
+// A memstore rotation is visible as a rotation of the log: walRot(db.wal) counts them.
 
-//@ ghost dbRot(db Ref) Int
+//@ func swapMemstore
+//@   props C13 C01 C02
+//@   requires db != nil && db.memStore != nil
+//@   ensures [C13,C01:old-write-store-handed-over] r0 != nil && fresh(r0) && deref(r0) == old(db.memStore.writeStore)
+//@   ensures [C01:old-write-store-stays-readable] db.memStore != nil && fresh(db.memStore) && db.memStore.readStore == old(db.memStore.writeStore) &&
+//@           db.memStore.writeStore != nil && fresh(db.memStore.writeStore)
+//@   modifies db.memStore
 
 //@ func (*DB).rotateWalAndFlushMemstore
-//@   props C01 C13
+//@   props C01 C13 C02
 //@   requires db.wal != nil && db.memStore != nil
-//@   ensures dbRot(db) == old(dbRot(db)) + 1
-//@   ensures walCount(db.wal) == old(walCount(db.wal))
-//@   modifies dbRot(db), walRot(db.wal), db.memStore
+//@   ensures [rotation-counted] walRot(db.wal) == old(walRot(db.wal)) + 1
+//@   ensures [no-record-logged] walCount(db.wal) == old(walCount(db.wal))
+//@   ensures [C13,C02:failed-rotation-keeps-the-memstore] r0 != nil ==> db.memStore == old(db.memStore)
+//@   ensures [C01:old-write-store-stays-readable] r0 == nil ==> db.memStore != nil && db.memStore.readStore == old(db.memStore.writeStore) && db.memStore.writeStore != nil
+//@   call 0 of swapMemstore: assert [C13,C02:log-file-closed-before-the-memstore-is-handed-over] called(WriteAheadLogI.Rotate, 0) &&
+//@        callres(WriteAheadLogI.Rotate, 0, 1) == nil
+//@   modifies walRot(db.wal), db.memStore
 
 //@ func (*DB).PutBytes
 //@   props C17 C02 C13 C01
@@ -66,15 +76,16 @@ package simpledb
 //@   ensures [at-most-one-append] walCount(db.wal) <= old(walCount(db.wal)) + 1
 //@   ensures [ack-implies-logged] r0 == nil ==> walCount(db.wal) == old(walCount(db.wal)) + 1 && walErr(db.wal, old(walCount(db.wal))) == nil &&
 //@           (walSync(db.wal, old(walCount(db.wal))) <==> !db.enableAsyncWAL)
-//@   ensures [error-means-nothing-durable] r0 != nil && dbRot(db) == old(dbRot(db)) ==>
+//@   ensures [error-means-nothing-durable] r0 != nil && walRot(db.wal) == old(walRot(db.wal)) ==>
 //@           walCount(db.wal) == old(walCount(db.wal)) || walErr(db.wal, old(walCount(db.wal))) != nil
-//@   ensures [error-has-no-effect] r0 != nil && dbRot(db) == old(dbRot(db)) ==> db.memStore == old(db.memStore) &&
+//@   ensures [error-has-no-effect] r0 != nil && walRot(db.wal) == old(walRot(db.wal)) ==> db.memStore == old(db.memStore) &&
 //@           mst(db.memStore.writeStore, content(keyBytes)) == old(mst(db.memStore.writeStore, content(keyBytes))) &&
 //@           mvl(db.memStore.writeStore, content(keyBytes)) === old(mvl(db.memStore.writeStore, content(keyBytes)))
-//@   ensures [ack-implies-applied] r0 == nil && dbRot(db) == old(dbRot(db)) ==>
+//@   ensures [ack-implies-applied] r0 == nil && walRot(db.wal) == old(walRot(db.wal)) ==>
 //@           mst(db.memStore.writeStore, content(keyBytes)) == 2 && mvl(db.memStore.writeStore, content(keyBytes)) === valBytes
 //@   call 0 of Upsert: assert [C17,C02,C13:logged-before-applied] walCount(db.wal) == old(walCount(db.wal)) + 1 && walErr(db.wal, old(walCount(db.wal))) == nil
-//@   modifies walCount(db.wal), mst(old(db.memStore.writeStore), content(keyBytes)), mvl(old(db.memStore.writeStore), content(keyBytes)), dbRot(db), walRot(db.wal), db.memStore
+//@   call 0 of Upsert: assert [C13,C02:no-rotation-between-log-and-apply] walRot(db.wal) == old(walRot(db.wal)) && db.memStore == old(db.memStore)
+//@   modifies walCount(db.wal), mst(old(db.memStore.writeStore), content(keyBytes)), mvl(old(db.memStore.writeStore), content(keyBytes)), walRot(db.wal), db.memStore
 
 //@ func (*DB).DeleteBytes
 //@   props C17 C02 C13 C01
@@ -91,6 +102,7 @@ package simpledb
 //@           mvl(db.memStore.writeStore, content(byteKey)) === old(mvl(db.memStore.writeStore, content(byteKey)))
 //@   ensures [ack-implies-applied] r0 == nil ==> mst(db.memStore.writeStore, content(byteKey)) == 1
 //@   call 0 of Delete: assert [C17,C02,C13:logged-before-applied] walCount(db.wal) == old(walCount(db.wal)) + 1 && walErr(db.wal, old(walCount(db.wal))) == nil
+//@   call 0 of Delete: assert [C13,C02:no-rotation-between-log-and-apply] walRot(db.wal) == old(walRot(db.wal)) && db.memStore == old(db.memStore)
 //@   modifies walCount(db.wal), mst(db.memStore.writeStore, content(byteKey)), mvl(db.memStore.writeStore, content(byteKey))
 
 // ---------------------------------------------------------------------------------------------------
@@ -232,3 +244,73 @@ package simpledb
 //@   loop reflectCompactionResult$1:1
 //@     invariant readersSorted(s.allSSTableReaders)
 //@     invariant readersNonNil(s.allSSTableReaders)
+
+// ---------------------------------------------------------------------------------------------------
+// C01: the read path. Tables first, then the memstore overrides: a memstore value wins, a memstore tombstone hides whatever
+// the tables hold, an unknown key falls back to the tables where a nil / empty value is a deleted key.
+
+//@ func (*DB).GetBytes
+//@   props C01 C18
+//@   requires db.rwLock != nil && db.sstableManager != nil && db.sstableManager.managerLock != nil && db.memStore != nil &&
+//@            db.memStore.writeStore != nil && db.memStore.readStore != nil && db.sstableManager.currentReader != nil
+//@   ensures [not-open] !db.open ==> r1 == ErrNotOpenedYet
+//@   ensures [closed] db.open && db.closed ==> r1 == ErrAlreadyClosed
+//@   exit [C01:memstore-value-wins] called(RWMemstore.Get, 0) && callres(RWMemstore.Get, 0, 1) == nil ==> r1 == nil && r0 === callres(RWMemstore.Get, 0, 0)
+//@   exit [C01:memstore-tombstone-hides-the-tables] called(RWMemstore.Get, 0) && callres(RWMemstore.Get, 0, 1) == memstore.KeyTombstoned ==> r1 == ErrNotFound
+//@   exit [C01:unknown-key-falls-back-to-the-tables] called(RWMemstore.Get, 0) && callres(RWMemstore.Get, 0, 1) == memstore.KeyNotFound &&
+//@        callres(SSTableReaderI.Get, 0, 1) == nil && len(callres(SSTableReaderI.Get, 0, 0)) > 0 ==> r1 == nil && r0 === callres(SSTableReaderI.Get, 0, 0)
+//@   exit [C01:deleted-or-absent-in-the-tables] called(RWMemstore.Get, 0) && callres(RWMemstore.Get, 0, 1) == memstore.KeyNotFound &&
+//@        (errIs(callres(SSTableReaderI.Get, 0, 1), sstables.NotFound) || (callres(SSTableReaderI.Get, 0, 1) == nil && len(callres(SSTableReaderI.Get, 0, 0)) == 0)) ==> r1 == ErrNotFound
+//@   exit [C01:table-errors-reported] called(SSTableReaderI.Get, 0) && callres(SSTableReaderI.Get, 0, 1) != nil &&
+//@        !errIs(callres(SSTableReaderI.Get, 0, 1), sstables.NotFound) ==> r1 != nil
+//@   modifies nothing
+
+//@ func (*SSTableManager).currentSSTable
+//@   props C01
+//@   requires s.managerLock != nil
+//@   ensures r0 == s.currentReader
+//@   modifies nothing
+
+// ---------------------------------------------------------------------------------------------------
+// C02 / C13: a memstore flush. The log file that covers the memstore is removed only after the table was written completely;
+// the new table is installed after that.
+
+//@ func (*SSTableManager).addReader
+//@   props C01 C02
+//@   requires s.managerLock != nil
+//@   ensures [C01:appended-as-the-newest-table] len(s.allSSTableReaders) == old(len(s.allSSTableReaders)) + 1 &&
+//@           s.allSSTableReaders[len(s.allSSTableReaders) - 1] == newReader
+//@   ensures [C01:older-tables-keep-their-place] forall j :: 0 <= j && j < old(len(s.allSSTableReaders)) ==> s.allSSTableReaders[j] == old(s.allSSTableReaders[j])
+//@   ensures [C01:reads-go-through-the-new-stack] s.currentReader != nil && fresh(s.currentReader)
+//@   modifies s.allSSTableReaders, s.currentReader, s.allSSTableReaders[*]
+
+//@ func executeFlush
+//@   props C02 C13 C11 C01
+//@   requires db != nil && db.sstableManager != nil && db.sstableManager.managerLock != nil && flushAction.memStore != nil && deref(flushAction.memStore) != nil
+//@   call 0 of os.Remove: assert [C02,C13:log-removed-only-after-the-table-is-written] called(MemStoreI.FlushWithTombstones, 0) &&
+//@        callres(MemStoreI.FlushWithTombstones, 0, 0) == nil && arg0 == flushAction.walPath
+//@   call 0 of SSTableManager.addReader: assert [C01,C02:installs-the-table-just-written] called(sstables.NewSSTableReader, 0) &&
+//@        callres(sstables.NewSSTableReader, 0, 1) == nil && arg0 == callres(sstables.NewSSTableReader, 0, 0)
+//@   exit [C11:flush-error-reported] called(MemStoreI.FlushWithTombstones, 0) && callres(MemStoreI.FlushWithTombstones, 0, 0) != nil ==> r0 != nil
+//@   exit [C02:success-installs-the-table] r0 == nil && called(MemStoreI.FlushWithTombstones, 0) ==> called(SSTableManager.addReader, 0)
+
+// ---------------------------------------------------------------------------------------------------
+// C10 / C02: recovery of the log. What was replayed is flushed into a new (newest) table before the log directory is removed;
+// every replayed record counts (a log that holds only deletions is flushed as well).
+
+//@ func (*DB).replayAndSetupWriteAheadLog
+//@   props C10 C02 C13
+//@   requires db.memStore != nil && db.memStore.writeStore != nil && db.sstableManager != nil && db.sstableManager.managerLock != nil
+//@   call 0 of os.RemoveAll: assert [C10,C02:log-removed-only-after-the-replayed-records-are-in-a-table] numRecords == 0 ||
+//@        (called(executeFlush, 0) && callres(executeFlush, 0, 0) == nil)
+//@   exit [C10:replay-error-fails-the-open] called(WriteAheadLogReplayI.Replay, 0) && callres(WriteAheadLogReplayI.Replay, 0, 0) != nil ==> r0 != nil
+//@   exit [C10,C02:flush-error-fails-the-open] called(executeFlush, 0) && callres(executeFlush, 0, 0) != nil ==> r0 != nil
+
+// the replay callback: every record that is applied is counted, whatever kind of mutation it is
+//@ func replayAndSetupWriteAheadLog$3
+//@   props C10 C02 C13
+//@   requires db != nil && db.memStore != nil && db.memStore.writeStore != nil
+//@   requires [fewer-than-2^62-records] 0 <= numRecords && numRecords < 4611686018427387904
+//@   ensures [C02,C10:every-applied-record-is-counted] r0 == nil ==> numRecords == old(numRecords) + 1
+//@   modifies numRecords, mst(*), mvl(*), fresh(*)
+//@   exit [apply-errors-reported] (called(RWMemstore.Upsert, 0) && callres(RWMemstore.Upsert, 0, 0) != nil) || (called(RWMemstore.Upsert, 1) && callres(RWMemstore.Upsert, 1, 0) != nil) ==> r0 != nil
